@@ -13,8 +13,8 @@ RULE = ("client programs over {start, stop, enqueue (returning / raising / gate-
         "(queue, unfinished_tasks, lock owner/depth, thread list, the three counters, queue mutex, per-task starts and future state). "
         "Non-trivial: at least one task and 20 model steps; distinct by (program, schedule policy).")
 MANIFEST_ENTRY = {
-    "text": 'Theorems (Coq, closed under the global context) for every schedule, program and pool size of the line-granularity model: no task body begins twice; a done future means its body ran exactly once; nothing runs and every worker is dead once stop() has returned; no accepted task is lost unaccounted; a queued task of a running pool at rest always has a live worker serving the queue. The model is driven in lock-step with the real ThreadPool under a controlled scheduler on every run; the oracle checks exactly-once, identity of results, no run after stop, FIFO for one worker and completion of accepted tasks on the explored schedules.',
-    "note": "Proved for ALL schedules/programs/pool sizes about Model/Pool.v (24 worker labels, 48 client labels, RLock, queue with its mutex and all_tasks_done condition); time-outs may fire at any moment in the theorems. Modelled, not verified: queue.Queue / threading primitives as atomic operations, CPython's atomicity of one source line, thread creation succeeds, unbounded queue, start()/stop() from one controlling thread. The liveness half ('is executed once the pool is running') is proved in its safety form only (C09_never_stranded: a queued task of a running pool at rest always has a live worker serving the queue). PARTIAL: eventual execution (fair scheduling, Queue.get's contract) and the single-worker FIFO clause are not theorems; they are checked by the oracle on the explored schedules only.",
+    "text": 'Theorems (Coq, closed under the global context) for every schedule, program and pool size of the line-granularity model: no task body begins twice; a done future means its body ran exactly once; nothing runs and every worker is dead once stop() has returned; no accepted task is lost unaccounted; a queued task of a running pool at rest always has a live worker serving the queue; with max_threads = 1 task bodies begin in submission order. The model is driven in lock-step with the real ThreadPool under a controlled scheduler on every run; the oracle checks exactly-once, identity of results, no run after stop, FIFO for one worker and completion of accepted tasks on the explored schedules.',
+    "note": "Proved for ALL schedules/programs/pool sizes about Model/Pool.v (24 worker labels, 48 client labels, RLock, queue with its mutex and all_tasks_done condition); time-outs may fire at any moment in the theorems. Modelled, not verified: queue.Queue / threading primitives as atomic operations, CPython's atomicity of one source line, thread creation succeeds, unbounded queue, start()/stop() from one controlling thread. The liveness half ('is executed once the pool is running') is proved in its safety form only (C09_never_stranded: a queued task of a running pool at rest always has a live worker serving the queue). The single-worker FIFO clause is a theorem (C09_single_worker_fifo: with max_threads = 1 the bodies begin in the order of the puts, for every schedule; C09_start_log_records_every_begin ties the log to the per-task begin counters). PARTIAL: eventual execution (fair scheduling, Queue.get's contract) is not a theorem; it is checked by the oracle on the explored schedules only.",
     "technique": "Coq proof of invariants over all schedules of a line-granularity interleaving model + lock-step correspondence under a controlled scheduler + property oracle",
     "design_ref": "DESIGN.md 4/C09 and 'The thread-pool model shared by C09, C10, C11'",
 }
